@@ -107,3 +107,9 @@ RULES = {
     "C03": "no argument makes ValidateLicenses / Satisfies / ExtractLicenses panic (recover() around every call)",
     "C01": "Satisfies equals the Boolean value of the generated formula under per-term verdicts",
 }
+
+# regression tier first: corpus/<ID>.json (hand-minimised reproducers of every defect found so far)
+import os as _os
+for _p in list(UNITS):
+    if _os.path.exists(_os.path.join(_os.path.dirname(_os.path.abspath(__file__)), "corpus", _p + ".json")):
+        UNITS[_p].insert(0, dict(test="TestCorpus", quick=dict(env={"VERIF_PROP": _p}), thorough=dict(env={"VERIF_PROP": _p})))
